@@ -1,8 +1,8 @@
 SPECIFICATION Spec
 CONSTANTS MaxLen = 4
-  Pool <- Pool4
+  Pool <- Pool3U
   Starts <- StartsAll
-  Xs = {1, 2}
+  Xs = {2}
   Nested = TRUE
   CopyVarContext = TRUE
   ExtendByCompose = TRUE
